@@ -97,19 +97,27 @@ def task(dummy):
     vecvar = m.new_var("vector", list(range(len(VECTORS))))
     outcome = m.new_var("interactive_outcome", ["vector", "EOFError", "KeyboardInterrupt"])
     seen_dests = []
+    OPT = {"-2": "2", "-3": "3", "-4": "4", "-a": "all", "--all": "all", "-n": "no_colors", "--no-colors": "no_colors", "-j": "json", "--json": "json"}
 
-    def flag_value(it_, args, kwargs, pc):
-        dest, action = args
-        seen_dests.append(dest)
-        if dest == "vector":
+    def flag_present(it_, args, kwargs, pc):
+        opt = args[0]
+        seen_dests.append(opt)
+        if opt in ("-v", "--vector"):
+            return vc.from_var(vecvar, lambda i: VECTORS[i] is not None)
+        if opt in OPT:
+            return vc.from_var(flags[OPT[opt]])
+        raise C.Unsupported("unexpected command line option %r" % (opt,))
+
+    def flag_argument(it_, args, kwargs, pc):
+        opt = args[0]
+        if opt in ("-v", "--vector"):
             return vc.from_var(vecvar, lambda i: VECTORS[i])
-        if dest in flags:
-            return vc.from_var(flags[dest])
-        raise C.Unsupported("unexpected command line option %r" % (dest,))
+        raise C.Unsupported("unexpected command line option with an argument %r" % (opt,))
 
-    # argparse stub module (interpreted) with the harness hook
+    # argparse stub module (interpreted) with the harness hooks
     stub = it.load_module("argparse")
-    stub.globals["_flag_value"] = NativeHandler(flag_value, "_flag_value")
+    stub.globals["_flag_present"] = NativeHandler(flag_present, "_flag_present")
+    stub.globals["_flag_argument"] = NativeHandler(flag_argument, "_flag_argument")
     it.stub_modules["argparse"] = stub
     mod = sess.load("cvss.cvss_calculator")
     C.set_epoch(1)
